@@ -541,6 +541,7 @@ def missing_files(chk, repo):
 
     def run(missing):
         I = Interp(repo)
+        I.environ = "unset"  # the files are missing in any environment; the one with nothing set is evaluated
         present = {f: Const(b"bytes of " + f.encode()) for f in files if f != missing}
         if "summary.txt" in present:
             # a well-formed summary text: the line parser is the package's own (it may be spread over helpers), only the section transforms are a marker
